@@ -102,9 +102,9 @@ var props = []Prop{
 	},
 	{
 		ID: "C10",
-		Harnesses: []H{{Pkg: "ecs", Fn: "HC10_Illegal"}, {Pkg: "ecs", Fn: "HC10_Illegal", Tags: "tiny", Tier: "thorough"}, {Pkg: "ecs", Fn: "HC03_BatchQuery"}},
+		Harnesses: []H{{Pkg: "ecs", Fn: "HC10_Illegal"}, {Pkg: "ecs", Fn: "HC10_Illegal", Tags: "tiny", Tier: "thorough"}, {Pkg: "ecs", Fn: "HC03_BatchQuery"}, {Pkg: "ecs", Fn: "HC10_BatchDup", W: 4}},
 		Conform: stdConform,
-		Bounds:  "6 prefixes x 1 failed call (thorough: followed by a second, fixed failed call) out of 10 illegal classes with all arguments symbolic and constrained only to be illegal per the documentation: Add/Remove/Exchange (dead or recycled entity, present/absent component, second relation), Assign (incl. no components), every accessor/mutator on a removed entity, Set / write through Get on a missing component, creation with two relations / target without relation / relation not among the components / non-relation named as relation (ids and values), duplicate ids (NewEntity, NewEntityWith, Add, Remove, Exchange), non-positive batch counts (fully symbolic count <= 0, NewBatch and NewBatchQ), Relations.Set and Relations.Exchange / Builder.Add with target (dead entity, wrong component, dead target, no effect); asserted: panic, then all observables = model, structural invariant, pool/index/row digest unchanged, world unlocked, and two further legal operations behave per the model; 2 configurations (thorough 4; C10 thorough 3). filter misuse (registering a registered filter, unregistering twice, unregistering or querying through a stale handle after a later registration); out-of-range indices (fully symbolic, 64 bit) on batch-result queries by HC03_BatchQuery, run here too; out-of-range indices on plain queries and non-positive steps are decided in C03, further cache histories in C07, resources in C20, type limit in C16, LoadEntities in C17.",
+		Bounds:  "6 prefixes x 1 failed call (thorough: followed by a second, fixed failed call) out of 10 illegal classes with all arguments symbolic and constrained only to be illegal per the documentation: Add/Remove/Exchange (dead or recycled entity, present/absent component, second relation), Assign (incl. no components), every accessor/mutator on a removed entity, Set / write through Get on a missing component, creation with two relations / target without relation / relation not among the components / non-relation named as relation (ids and values), duplicate ids (NewEntity, NewEntityWith, Add, Remove, Exchange), non-positive batch counts (fully symbolic count <= 0, NewBatch and NewBatchQ), Relations.Set and Relations.Exchange / Builder.Add with target (dead entity, wrong component, dead target, no effect); asserted: panic, then all observables = model, structural invariant, pool/index/row digest unchanged, world unlocked, and two further legal operations behave per the model; 2 configurations (thorough 4; C10 thorough 3). duplicate ids in batch calls (Batch.Add / Remove / Exchange and Q variants, HC10_BatchDup); filter misuse (registering a registered filter, unregistering twice, unregistering or querying through a stale handle after a later registration); out-of-range indices (fully symbolic, 64 bit) on batch-result queries by HC03_BatchQuery, run here too; out-of-range indices on plain queries and non-positive steps are decided in C03, further cache histories in C07, resources in C20, type limit in C16, LoadEntities in C17.",
 		Outside: "empty graph nodes / tables left behind by a failed graph walk (visible only through Stats().Nodes, not an observable named by the property); sequences of more than two failed calls",
 	},
 	{
@@ -151,9 +151,9 @@ var props = []Prop{
 	},
 	{
 		ID: "C19",
-		Harnesses: []H{{Pkg: "ecs", Fn: "HC19_Isolation"}, {Pkg: "ecs", Fn: "HC19_Isolation", Tags: "tiny", Tier: "thorough"}},
+		Harnesses: []H{{Pkg: "ecs", Fn: "HC19_Isolation"}, {Pkg: "ecs", Fn: "HC19_Isolation", Tags: "tiny", Tier: "thorough"}, {Pkg: "ecs", Fn: "HC19_SharedDump", W: 2}},
 		Conform: stdConform,
-		Bounds:  "two worlds in one heap (same types registered in opposite order, different capacity increments), 2 (thorough 5) prefixes on world 1, one operation on world 1 out of the single-entity (11 kinds), batch (5), removal/retarget (6) families and a query/cache/registration/resource/Stats bundle, with every legal argument; then a fixed sequence on world 2; decided per path: creating and populating the first world writes no package-level variable and nothing reachable from one; the set of blocks written by the operations on one world is disjoint from everything reachable from the other world (pointers, slices, interfaces, maps, closures, reflect values) and contains no package-level variable; both worlds' observables stay equal to their models. A violation is replayed natively with two goroutines driving their own worlds under the race detector.",
+		Bounds:  "two worlds in one heap (same types registered in opposite order, different capacity increments), 2 (thorough 5) prefixes on world 1, one operation on world 1 out of the single-entity (11 kinds), batch (5), removal/retarget (6) families and a query/cache/registration/resource/Stats bundle, with every legal argument; then a fixed sequence on world 2; decided per path: creating and populating the first world writes no package-level variable and nothing reachable from one; the set of blocks written by the operations on one world is disjoint from everything reachable from the other world (pointers, slices, interfaces, maps, closures, reflect values) and contains no package-level variable; both worlds' observables stay equal to their models; HC19_SharedDump: two worlds loaded from one dump object (capacity increments 1 / 4 / 5) - operations on one write nothing reachable from the other or from the dump. A violation is replayed natively with two goroutines driving their own worlds under the race detector.",
 		Outside: "goroutine schedules are not enumerated: footprint disjointness implies race freedom and independence for one-goroutine-per-world programs under every schedule; shared state inside the Go runtime (allocator, reflect type cache) is trusted",
 	},
 	{
